@@ -19,14 +19,16 @@ EntryOf(vi, ch, k, pat, withBpm) == LET c == Pal(ch)[((k * pat + pat) % 6) + 1] 
     [v |-> VA[vi], t |-> Ticks(VA[vi]), rest |-> c = <<>>, notes |-> c, bpm |-> IF withBpm /\ c # <<>> /\ k = 2 THEN 90 ELSE 0]
 BarOf(m, f, ch, pat, withBpm) == [key |-> <<"C">>, meter |-> m, entries |-> [k \in 1..Len(f) |-> EntryOf(f[k], ch, k, pat, withBpm)]]
 \* which voices carry which instrument: a MIDI instrument on voice 2 only; on voice 1 only (the voices after it have none); on voice 1
-\* followed by a piano (an instrument that is no MIDI instrument); on every voice (different programs); a piano first
+\* followed by a piano (an instrument that is no MIDI instrument); on every voice (different programs); a piano first; none at all; the same program on every voice
 NoI == [kind |-> "none", nr |-> 0]
 InstrOf(ip, v, nr) == CASE ip = 0 -> (IF v = 2 THEN [kind |-> "midi", nr |-> nr] ELSE NoI)
                         [] ip = 1 -> (IF v = 1 THEN [kind |-> "midi", nr |-> nr] ELSE NoI)
                         [] ip = 2 -> (IF v = 1 THEN [kind |-> "midi", nr |-> nr] ELSE IF v = 2 THEN [kind |-> "piano", nr |-> 0] ELSE NoI)
                         [] ip = 3 -> [kind |-> "midi", nr |-> (nr + 7 * (v - 1)) % 128]
-                        [] OTHER -> (IF v = 1 THEN [kind |-> "piano", nr |-> 0] ELSE [kind |-> "midi", nr |-> nr])
-Init == /\ \E nv \in 1..MaxVoices, nb \in 1..MaxBars, bpm \in {120, 60, 200}, same \in BOOLEAN, nr \in {0, 33, 127, 6}, ip \in 0..4 : \E ms \in [1..nb -> {<<4,4>>, <<3,4>>, <<6,8>>, <<2,2>>, <<8,8>>}] :
+                        [] ip = 4 -> (IF v = 1 THEN [kind |-> "piano", nr |-> 0] ELSE [kind |-> "midi", nr |-> nr])
+                        [] ip = 5 -> NoI                                   \* no voice has an instrument: every track announces program 1
+                        [] OTHER -> [kind |-> "midi", nr |-> nr]           \* every voice the SAME program (with a shared channel: the same change twice)
+Init == /\ \E nv \in 1..MaxVoices, nb \in 1..MaxBars, bpm \in {120, 60, 200}, same \in BOOLEAN, nr \in {0, 33, 127, 6}, ip \in 0..6 : \E ms \in [1..nb -> {<<4,4>>, <<3,4>>, <<6,8>>, <<2,2>>, <<8,8>>}] :
              prog = [bpm |-> bpm, repeat |-> 0, nv |-> nv, meters |-> ms, same |-> same, fills |-> <<>>,
                      tracks |-> [v \in 1..nv |-> [name |-> <<86, 48 + v>>, instr |-> InstrOf(ip, v, nr), bars |-> <<>>]]]
         /\ cell = <<1, 1>> /\ done = FALSE
